@@ -20,6 +20,9 @@ class Check:
         self.assumptions = []
         self.kf = yvlib.load_known_findings()
         self.distinct = set()
+        import glob
+        for f in glob.glob(os.path.join(VERIF, 'replays', pid + '_*.json')):
+            os.remove(f)
         self.obl = {'obligations': 0, 'discharged': 0, 'theorems': [], 'print_assumptions': [], 'broken': []}
 
     # ------------------------------------------------------------------
